@@ -6,6 +6,7 @@
 //! * `apply`  - application of one specification label (one public call);
 //! * `lines`  - reading TLC's `<<"GEN", "...">>` output.
 pub mod apply;
+pub mod envdyn;
 pub mod lines;
 pub mod proj;
 pub mod rngs;
